@@ -3,10 +3,13 @@ package checks
 import (
 	"encoding/json"
 	"fmt"
+	"os"
+	"strings"
 
 	utils "github.com/acekingke/yaccgo/Utils"
 	"pgregory.net/rapid"
 
+	"verifharness/gen"
 	"verifharness/spec"
 	"verifharness/yg"
 )
@@ -233,4 +236,139 @@ func evalC05Cells(c *Ctx, gc GCase) string {
 		}
 	}
 	return ""
+}
+
+func init() {
+	Register(&Unit{Prop: "C05", Name: "gen",
+		Shards: func(tier string) int { return map[string]int{"quick": 4, "thorough": 8}[tier] },
+		Run: func(c *Ctx) {
+			c.P.Rule = "generated packed vs -u parsers: every cell through the real Action(), and every input"
+			n := c.Pick(36, 500)
+			g := rapid.Custom(func(t *rapid.T) *TGCase {
+				cs := drawTG(t, []string{"productive", "lalr", "separators", "nullable", "prec", "uniform"}, 100, 10)
+				cs.Variants = []string{"go", "go-u", "go-o", "go-ou"}
+				return cs
+			})
+			batch := 24
+			for done := 0; done < n; done += batch {
+				var cases []*TGCase
+				for i := 0; i < batch && done+i < n; i++ {
+					cases = append(cases, g.Example(int(c.SubSeed("case", done+i)>>1)))
+				}
+				if runC05Gen(c, cases) {
+					return
+				}
+			}
+		},
+		Replay: func(c *Ctx, raw json.RawMessage) string {
+			var cs TGCase
+			if m := decodeCase(raw, &cs); m != "" {
+				return m
+			}
+			c05Msg = ""
+			runC05Gen(c, []*TGCase{&cs})
+			return c05Msg
+		},
+	})
+}
+
+var c05Msg string
+
+func runC05Gen(c *Ctx, cases []*TGCase) bool {
+	dir, err := os.MkdirTemp(c.OutDir, "c05-")
+	if err != nil {
+		c.Infra("mkdtemp: %v", err)
+		return true
+	}
+	defer os.RemoveAll(dir)
+	var jobs []*gen.Job
+	for i, cs := range cases {
+		j := &gen.Job{ID: fmt.Sprintf("g%d", i), Spec: cs.Spec, Variants: variantsByName(cs.Variants)}
+		j.Ops = append(j.Ops, gen.Op{Op: "cells"})
+		for _, in := range cs.Inputs {
+			j.Ops = append(j.Ops, gen.Op{Op: "parse", Init: true, In: in})
+		}
+		jobs = append(jobs, j)
+	}
+	env := c.GenEnv()
+	if c.P.Infra != "" {
+		return true
+	}
+	res, err := gen.RunBatch(env, dir, jobs)
+	if err != nil {
+		c.Infra("batch: %v", err)
+		return true
+	}
+	for i, cs := range cases {
+		vr := res[fmt.Sprintf("g%d", i)]
+		fail := func(in []int, format string, a ...interface{}) bool {
+			msg := fmt.Sprintf(format, a...) + "\ngrammar:\n" + cs.Text
+			small := *cs
+			if in != nil {
+				small.Inputs = [][]int{in}
+			}
+			c05Msg = msg
+			c.Violate(&small, msg)
+			return true
+		}
+		for _, pair := range [][2]string{{"go", "go-u"}, {"go-o", "go-ou"}} {
+			p, u := vr[pair[0]], vr[pair[1]]
+			if p == nil || u == nil || p.Gen.Failed() || u.Gen.Failed() {
+				c.Class("rejected-by-yaccgo")
+				break
+			}
+			if !p.Built || !u.Built {
+				c.Exclude("generated file does not build (C16's business)")
+				break
+			}
+			if p.TimedOut || u.TimedOut || len(p.Lines) < 1+len(cs.Inputs) || len(u.Lines) < 1+len(cs.Inputs) {
+				c.Inconclusive("driver run incomplete (timeout or crash; C06's business)")
+				break
+			}
+			packed := strings.Contains(string(p.Source), "It is NeedPacked")
+			var pc, uc struct {
+				Cells [][]int `json:"cells"`
+			}
+			if json.Unmarshal(p.Lines[0], &pc) != nil || json.Unmarshal(u.Lines[0], &uc) != nil {
+				c.Infra("unreadable cells dump")
+				return true
+			}
+			if len(pc.Cells) != len(uc.Cells) {
+				return fail(nil, "%s has %d states, %s has %d", pair[0], len(pc.Cells), pair[1], len(uc.Cells))
+			}
+			for q := range uc.Cells {
+				if len(pc.Cells[q]) != len(uc.Cells[q]) {
+					return fail(nil, "state %d: %s answers %d symbols, %s %d (a lookup failed)", q, pair[0], len(pc.Cells[q]), pair[1], len(uc.Cells[q]))
+				}
+				for a := range uc.Cells[q] {
+					c.Eval(1)
+					if pc.Cells[q][a] != uc.Cells[q][a] {
+						return fail(nil, "Action(state %d, symbol %d) = %d in the %s parser (packed=%v) and %d in the %s parser", q, a, pc.Cells[q][a], pair[0], packed, uc.Cells[q][a], pair[1])
+					}
+				}
+			}
+			for k, in := range cs.Inputs {
+				a, e1 := p.ParseRes(k + 1)
+				b, e2 := u.ParseRes(k + 1)
+				if e1 != nil || e2 != nil {
+					c.Infra("unreadable parse result: %v %v", e1, e2)
+					return true
+				}
+				c.Eval(1)
+				if d := diffRes(a, b); d != "" {
+					return fail(in, "%s and %s disagree on %s: %s", pair[0], pair[1], inputNames(cs.Spec, in), d)
+				}
+			}
+			if packed {
+				c.Class("packed:" + pair[0])
+				c.Nontrivial(Hash(cs.Text, pair[0]))
+				if c.WantSample() {
+					c.Sample(map[string]interface{}{"grammar": cs.Text, "pair": pair, "states": len(uc.Cells), "inputs": len(cs.Inputs)})
+				}
+			} else {
+				c.Class("dense-in-both:" + pair[0])
+			}
+		}
+	}
+	return false
 }
